@@ -7,6 +7,7 @@ var Registry = map[string]func(*core.Ctx){
 	"C01": C01,
 	"C06": C06,
 	"C13": C13,
+	"C14": C14,
 	"C15": C15,
 	"C17": C17,
 	"C20": C20,
